@@ -114,7 +114,7 @@ PLAN["C02"] = dict(
 PLAN["C03"] = dict(
     rule=RX_GEN % 10 + "; the term examined is the final slot or a derivative of it (0-2 hops); every class id, every probed character (both ends of every class, characters just outside, atom representatives), 1-5 query sets [a,b] placed on/next to the class boundaries, invalid ids Interval(n), Interval(n+k), Complement when nothing is uncovered. "
          "Non-trivial = the term has >= 2 classes and a query set straddles classes; distinct = digest of (landmarks, program).",
-    oracle="for every probed character c: char_derivative(e,c) and class_derivative(e, class of c) are bisimilar (R5) to the reference state after c, i.e. denote exactly c^-1 L(e) for all continuation strings, so every character of a class gives the class derivative; str_derivative is pointer-equal to the fold of char_derivative; class ids cover the alphabet (Complement listed iff something is uncovered, computed from char_ranges); invalid ids => Err(BadClassId); set_derivative(e,[a,b]) => Ok(common derivative, checked against the quotient at both ends) when the set lies in one class by linear scan, Err(_) when it meets more than one",
+    oracle="for every probed character c: char_derivative(e,c) and class_derivative(e, class of c) are bisimilar (R5) to the reference state after c, i.e. denote exactly c^-1 L(e) for all continuation strings, so every character of a class gives the class derivative; str_derivative(e,s) denotes exactly s^-1 L(e) (bisimulation from the reference state after s; whether it is the same term as the fold of char_derivative is only recorded); class ids cover the alphabet (Complement listed iff something is uncovered, computed from char_ranges); invalid ids => Err(BadClassId); set_derivative(e,[a,b]) => Ok(common derivative, checked against the quotient at both ends) when the set lies in one class by linear scan, Err(_) when it meets more than one",
     assumptions=RX_ASSUME + ["the error variant of set_derivative is not checked (statement: 'an error')"],
     quick=dict(proptest={"rel": (12, 40000), "dbg": (4, 8000)}),
     thorough=dict(proptest={"rel": (16, 250000), "dbg": (8, 60000)}),
